@@ -17,6 +17,121 @@ def closure_outcomes(facts, body, origin):
     return None
 
 
+def deep_leaves(o, _seen=None, _depth=0):
+    """Leaves of an origin, looking through calls (their arguments), aggregates and alternatives."""
+    if _seen is None:
+        _seen = {}
+    if o is None or id(o) in _seen or _depth > 12:
+        return []
+    _seen[id(o)] = o
+    k = o.kind
+    subs = []
+    if k == 'call':
+        subs = list(o.args or [])
+    elif k in ('place', 'ref', 'cast'):
+        subs = [o.base]
+    elif k == 'agg':
+        subs = list(getattr(o, 'ops', None) or [])
+    elif k == 'bin':
+        subs = [o.a, o.b]
+    elif k == 'un':
+        subs = [o.a]
+    elif k == 'multi':
+        subs = list(getattr(o, 'alts', None) or [])
+    else:
+        return [o]
+    out = []
+    for x in subs:
+        out += deep_leaves(x, _seen, _depth + 1)
+    return out
+
+
+def _named_local(body, place, names, depth=0):
+    """The user-named local a temporary operand refers to (`&mut old_iter` held in a temp)."""
+    if not place or depth > 6:
+        return None
+    l = place[0]
+    if l in names:
+        return l
+    defs = [st for _site, st in body.stmts() if st['s'] == 'assign' and st['lhs'] == [l]]
+    if len(defs) != 1:
+        return None
+    rv = defs[0]['rv']
+    if rv['r'] == 'ref':
+        return _named_local(body, rv.get('p'), names, depth + 1)
+    if rv['r'] == 'use':
+        o = rv['o']
+        return _named_local(body, o.get('m') or o.get('c'), names, depth + 1)
+    return None
+
+
+CANON = ('old_iter', 'new_iter', 'opt_old', 'opt_new', 'old_item', 'new_item')
+
+
+def canonicalise_names(body):
+    """The row extraction below speaks of the two cursors by the names they have on the reference tree. Roles are
+    recovered from data flow, so that renamed locals are looked at under the reference names: the iterator whose value
+    derives from the first parameter is `old_iter`, the local its next() result is moved into is `opt_old`, the local
+    bound to that cursor's Some payload is `old_item` (likewise `new_*` for the second parameter)."""
+    if getattr(body, '_mj_canon', False):
+        return
+    body._mj_canon = True
+    names = body._names
+    params = {d['p'][0]: d['arg'] for d in body.rec.get('debug', []) if d.get('arg') and len(d['p']) == 1}
+    pname = {d['name']: d['arg'] for d in body.rec.get('debug', []) if d.get('arg')}
+    role_of_iter = {}
+    cursor_of = {}
+    for s in body.calls('re:::next$'):
+        t = s.term
+        if not t['args'] or len(t.get('dest') or []) != 1:
+            continue
+        a = t['args'][0]
+        pl = a.get('m') or a.get('c')
+        it = _named_local(body, pl, names)
+        if it is None:
+            continue
+        idx = set()
+        for lf in deep_leaves(body.origin_of_place([it])):
+            if lf.kind == 'param' and getattr(lf, 'name', None) in pname:
+                idx.add(pname[lf.name])
+        if len(idx) != 1:
+            continue
+        side = {1: 'old', 2: 'new'}.get(idx.pop())
+        if not side:
+            continue
+        role_of_iter[it] = side
+        for site, st in body.stmts():
+            if st['s'] == 'assign' and st['rv']['r'] == 'use' and st['rv']['o'].get('m') == t['dest'] and len(st['lhs']) == 1 and st['lhs'][0] in names:
+                cursor_of[st['lhs'][0]] = side
+    item_of = {}
+    for site, st in body.stmts():
+        if st['s'] != 'assign' or len(st['lhs']) != 1 or st['lhs'][0] not in names or st['rv']['r'] not in ('use', 'ref'):
+            continue
+        src = st['rv'].get('o') or st['rv'].get('p') or {}
+        pl = src.get('m') or src.get('c') if isinstance(src, dict) else src
+        if isinstance(pl, list) and pl and pl[0] in cursor_of and len(pl) > 1:
+            item_of[st['lhs'][0]] = cursor_of[pl[0]]
+    ren = {}
+    for l, side in role_of_iter.items():
+        ren[l] = side + '_iter'
+    for l, side in cursor_of.items():
+        ren[l] = 'opt_' + side
+    for l, side in item_of.items():
+        if l not in cursor_of:
+            ren[l] = side + '_item'
+    if not ren:
+        return
+    taken = set(ren.values())
+    for l, nm in list(names.items()):
+        if l not in ren and nm in taken:
+            names[l] = nm + '_'     # an unrelated local that happens to carry a reference name
+    for l, nm in ren.items():
+        names[l] = nm
+    body._origin_cache = {}
+    if hasattr(body, '_memo'):
+        body._memo = {}
+
+
 def who(desc):
     o = 'opt_old' in desc or 'old_item' in desc
     n = 'opt_new' in desc or 'new_item' in desc
@@ -26,6 +141,7 @@ def who(desc):
 
 
 def rows(facts, body):
+    canonicalise_names(body)
     heads = sorted(set(h for _t, h in body.back_edges()))
     out = []
     for h in heads:
